@@ -53,8 +53,40 @@ theorem applyRecs_append (x : Idx) (f : Nat) (a b : List Rec) :
     x.applyRecs f (a ++ b) = (x.applyRecs f a).applyRecs f b := by
   simp [Idx.applyRecs, List.foldl_append]
 
-theorem replayFile_eq (x : Idx) (f : LogFile) : replayFile x f = x.applyRecs f.num (recsOfFile f) := by
+/-- The batches of a log carry strictly increasing, positive sequence numbers and none is empty:
+what `flushLocked` writes (`nextBatchSeqNum` only grows, an empty flush writes nothing). -/
+structure SeqOK (f : LogFile) : Prop where
+  len : f.seqs.length = f.batches.length
+  inc : f.seqs.Pairwise (· < ·)
+  pos : ∀ q ∈ f.seqs, 0 < q
+  nonempty : ∀ b ∈ f.batches, b ≠ []
+
+theorem visibleFrom_all (last : Nat) (bs : List (List Rec)) (qs : List Nat) (hl : qs.length = bs.length)
+    (hi : qs.Pairwise (· < ·)) (hp : ∀ q ∈ qs, last < q) (hn : ∀ b ∈ bs, b ≠ []) :
+    (visibleFrom last bs qs).map (·.1) = bs ∧ (visibleFrom last bs qs).map (·.2) = qs := by
+  induction bs generalizing last qs with
+  | nil => cases qs <;> simp [visibleFrom] at hl ⊢
+  | cons b bs ih =>
+    cases qs with
+    | nil => simp at hl
+    | cons q qs =>
+      have hb : b ≠ [] := hn b List.mem_cons_self
+      have hq : last < q := hp q List.mem_cons_self
+      have hc : (b.isEmpty || decide (q ≤ last)) = false := by
+        have : ¬ q ≤ last := by omega
+        simp [this, hb]
+      have hi' := List.pairwise_cons.mp hi
+      obtain ⟨i1, i2⟩ := ih q qs (by simpa using hl) hi'.2 (fun q' hq' => hi'.1 q' hq')
+        (fun b' hb' => hn b' (List.mem_cons_of_mem _ hb'))
+      simp only [visibleFrom, hc, Bool.false_eq_true, ↓reduceIte, List.map_cons, i1, i2, and_self]
+
+/-- With well-formed sequence numbers Pebble's reader skips nothing. -/
+theorem SeqOK.visible {f : LogFile} (h : SeqOK f) : f.visible = f.batches :=
+  (visibleFrom_all 0 f.batches f.seqs h.len h.inc h.pos h.nonempty).1
+
+theorem replayFile_eq (x : Idx) (f : LogFile) (h : SeqOK f) : replayFile x f = x.applyRecs f.num (recsOfFile f) := by
   unfold replayFile recsOfFile
+  rw [h.visible]
   generalize f.batches = bs
   induction bs generalizing x with
   | nil => rfl
@@ -68,16 +100,16 @@ theorem recsOf_cons (f : LogFile) (fs : List LogFile) : recsOf (f :: fs) = recsO
 theorem recsOf_append (a b : List LogFile) : recsOf (a ++ b) = recsOf a ++ recsOf b := by
   simp [recsOf]
 
-theorem replayFiles_EWF (x : Idx) (fs : List LogFile) (w : x.EWF) : (replayFiles x fs).EWF := by
+theorem replayFiles_EWF (x : Idx) (fs : List LogFile) (hs : ∀ f ∈ fs, SeqOK f) (w : x.EWF) : (replayFiles x fs).EWF := by
   induction fs generalizing x with
   | nil => exact w
   | cons f fs ih =>
     simp only [replayFiles, List.foldl_cons]
-    apply ih
-    rw [replayFile_eq]
+    apply ih _ (fun g hg => hs g (List.mem_cons_of_mem _ hg))
+    rw [replayFile_eq _ _ (hs f List.mem_cons_self)]
     exact applyRecs_EWF x f.num _ w
 
-theorem replayFiles_closed (x : Idx) (fs : List LogFile) (w : x.EWF) :
+theorem replayFiles_closed (x : Idx) (fs : List LogFile) (hs : ∀ f ∈ fs, SeqOK f) (w : x.EWF) :
     (replayFiles x fs).pruned = max x.pruned (maxPrune (recsOf fs)) ∧
     ∀ h, (replayFiles x fs).view h =
       if h ≤ max x.pruned (maxPrune (recsOf fs)) then [] else x.view h ++ entriesOf h (recsOf fs) := by
@@ -91,10 +123,10 @@ theorem replayFiles_closed (x : Idx) (fs : List LogFile) (w : x.EWF) :
     · simp [hh]
   | cons f fs ih =>
     have hstep : replayFiles x (f :: fs) = replayFiles (replayFile x f) fs := rfl
-    rw [hstep, replayFile_eq]
+    rw [hstep, replayFile_eq _ _ (hs f List.mem_cons_self)]
     have w1 := applyRecs_EWF x f.num (recsOfFile f) w
     obtain ⟨p1, v1⟩ := applyRecs_closed x f.num (recsOfFile f) w
-    obtain ⟨p2, v2⟩ := ih _ w1
+    obtain ⟨p2, v2⟩ := ih _ (fun g hg => hs g (List.mem_cons_of_mem _ hg)) w1
     rw [recsOf_cons, maxPrune_append]
     refine ⟨by rw [p2, p1]; omega, ?_⟩
     intro h
@@ -150,13 +182,32 @@ theorem empty_EWF (w : Nat) : ({ pruned := w } : Idx).EWF :=
 theorem openStore_ok (d : Disk) (g : GarbageOnlyLast d.files) :
     openStore d = .ok ({ nextWAL := nextNum (clearLastGarbage d.files),
                          idx := replayFiles { pruned := d.wm.getD 0 } (clearLastGarbage d.files),
-                         known := (clearLastGarbage d.files).map (·.num) },
+                         known := (clearLastGarbage d.files).map (·.num),
+                         nextSeq := (clearLastGarbage d.files).foldl seqAfterFile 1 },
                        { d with files := clearLastGarbage d.files }) := by
   unfold openStore
   simp [clearLastGarbage_clean d.files g]
 
 /-- A directory whose logs present `A` reopens without error and shows exactly `A`. -/
-theorem recover_of_presents (d : Disk) (A : List Rec) (g : GarbageOnlyLast d.files)
+theorem seqOK_clearLastGarbage (fs : List LogFile) (hs : ∀ f ∈ fs, SeqOK f) : ∀ f ∈ clearLastGarbage fs, SeqOK f := by
+  induction fs with
+  | nil => intro f hf; simp [clearLastGarbage] at hf
+  | cons f fs ih =>
+    cases fs with
+    | nil =>
+      intro g hg
+      simp only [clearLastGarbage, List.mem_singleton] at hg
+      subst hg
+      have h := hs f List.mem_cons_self
+      exact ⟨h.len, h.inc, h.pos, h.nonempty⟩
+    | cons f' gs =>
+      intro g hg
+      simp only [clearLastGarbage] at hg ih
+      rcases List.mem_cons.mp hg with rfl | h
+      · exact hs _ List.mem_cons_self
+      · exact ih (fun a ha => hs a (List.mem_cons_of_mem _ ha)) g h
+
+theorem recover_of_presents (d : Disk) (A : List Rec) (g : GarbageOnlyLast d.files) (hs : ∀ f ∈ d.files, SeqOK f)
     (p : Presents d.wmVal (recsOf d.files) A) :
     ∃ out, recover d = .ok out ∧ LoadSpec out A := by
   refine ⟨(replayFiles { pruned := d.wm.getD 0 } (clearLastGarbage d.files)).entries, ?_, ?_⟩
@@ -164,8 +215,9 @@ theorem recover_of_presents (d : Disk) (A : List Rec) (g : GarbageOnlyLast d.fil
     rw [openStore_ok d g]
     rfl
   · have w0 := empty_EWF (d.wm.getD 0)
-    have w1 := replayFiles_EWF _ (clearLastGarbage d.files) w0
-    obtain ⟨_, v⟩ := replayFiles_closed _ (clearLastGarbage d.files) w0
+    have hs' := seqOK_clearLastGarbage d.files hs
+    have w1 := replayFiles_EWF _ (clearLastGarbage d.files) hs' w0
+    obtain ⟨_, v⟩ := replayFiles_closed _ (clearLastGarbage d.files) hs' w0
     refine ⟨w1.sorted, w1.nonempty, ?_⟩
     intro h
     have := v h
